@@ -16,10 +16,12 @@
 #include <fstream>
 #include <iostream>
 #include <map>
+#include <locale>
 #include <set>
 #include <sstream>
 #include <sys/file.h>
 #include <sys/stat.h>
+#include <sys/resource.h>
 #include <sys/wait.h>
 #include <unistd.h>
 #include <thread>
@@ -43,7 +45,16 @@ int childWork(size_t index, size_t n, long long barrier, const std::string &dir)
     try {
         sleepUntil(barrier);
         s0 = (long long) time(nullptr);
-        ids.push_back(nix::util::createId());            // the generator is seeded here at the latest
+        {
+            // NIXDRV_ID_STARVE: the process cannot open a single file while it draws its first id (descriptors exhausted): whatever the
+            // generator falls back on must still differ from process to process
+            struct rlimit keep; bool starve = getenv("NIXDRV_ID_STARVE") != nullptr && getrlimit(RLIMIT_NOFILE, &keep) == 0;
+            if (starve) { struct rlimit none = keep; none.rlim_cur = 0; setrlimit(RLIMIT_NOFILE, &none); }
+            std::string first;
+            try { first = nix::util::createId(); } catch (...) { if (starve) setrlimit(RLIMIT_NOFILE, &keep); throw; }
+            if (starve) setrlimit(RLIMIT_NOFILE, &keep);
+            ids.push_back(first);                          // the generator is seeded here at the latest
+        }
         s1 = (long long) time(nullptr);
         std::string own = dir + "/race-" + std::to_string(index) + ".nix";
         {
@@ -106,6 +117,22 @@ DRV_OP(id_new) {
     });
 }
 
+// id_new_loc <n> => ok [ids]   the same with a global C++ locale installed that groups digits (as many national locales do): the text
+// of an id does not depend on it
+DRV_OP(id_new_loc) {
+    if (a.size() != 2) throw ProtoError("id_new_loc arity");
+    struct Grouping : std::numpunct<char> { char do_thousands_sep() const override { return ','; } std::string do_grouping() const override { return "\3"; } };
+    std::locale before = std::locale::global(std::locale(std::locale::classic(), new Grouping));
+    std::string r = guarded([&]() {
+        std::vector<std::string> l;
+        size_t n = tokNat(a[1]);
+        for (size_t i = 0; i < n; i++) l.push_back(nix::util::createId());
+        return listTok(l);
+    });
+    std::locale::global(before);
+    return r;
+}
+
 // id_all => ok [<kind>:<parent id>:<name>:<created_at>=<id>,…]   every entity of the store family's open file with a key that tells
 // entities apart without using the id itself (kind, id of the parent, name, creation time)
 DRV_OP(id_all) {
@@ -127,6 +154,31 @@ DRV_OP(id_all) {
             std::string parent = sl == std::string::npos ? std::string("F") : idAt[path.substr(0, sl)];
             if (t[1] == "F") out.push_back("F:::=" + t[3]);
             else out.push_back(t[1] + ":" + parent + ":" + t[4] + ":" + t[6] + "=" + t[3]);
+            // the features of a tag / multi-tag are not records of their own: feats=[<feature id>:<link type>:<array id>,…]; a feature
+            // is told apart by its holder, its array, its link type and its rank among the features that share all three
+            if (t[1] == "T" || t[1] == "M") {
+                for (size_t k = 7; k < t.size(); k++) {
+                    if (t[k].compare(0, 7, "feats=[") != 0) continue;
+                    std::string body = t[k].substr(7, t[k].size() - 8);
+                    // (only features that are the ONLY one of their holder with that array and link type: the others cannot be told apart
+                    // without their ids; a feature whose array is gone is not listed either)
+                    std::map<std::string, int> seen;
+                    std::vector<std::pair<std::string, std::string>> entries;
+                    size_t p0 = 0;
+                    while (p0 < body.size()) {
+                        size_t p1 = body.find(',', p0); if (p1 == std::string::npos) p1 = body.size();
+                        std::string e = body.substr(p0, p1 - p0);
+                        size_t c1 = e.find(':'), c2 = e.find(':', c1 + 1);
+                        if (c1 != std::string::npos && c2 != std::string::npos && c1 == 36 && e.size() - c2 - 1 == 36) {
+                            std::string what = e.substr(c1 + 1);       // link:array
+                            seen[what]++;
+                            entries.push_back({what, e.substr(0, 36)});
+                        }
+                        p0 = p1 + 1;
+                    }
+                    for (auto &en : entries) if (seen[en.first] == 1) out.push_back("R:" + t[3] + ":" + en.first + ":=" + en.second);
+                }
+            }
         }
         pos = next;
     }
@@ -216,7 +268,9 @@ DRV_OP(id_threads) {
 
 DRV_OP(id_race) {
     if (a.size() != 4) throw ProtoError("id_race arity");
-    const bool useExec = a[1] == "exec", pool = a[1] == "pool", tree = a[1] == "tree";
+    // execs = exec with NIXDRV_ID_STARVE set for the children
+    const bool starved = a[1] == "execs";
+    const bool useExec = a[1] == "exec" || starved, pool = a[1] == "pool", tree = a[1] == "tree";
     if (!useExec && !pool && !tree && a[1] != "fork") throw ProtoError("id_race mode");
     size_t K = tokNat(a[2]), N = tokNat(a[3]);
     std::string dir = scratch("race");
@@ -257,6 +311,7 @@ DRV_OP(id_race) {
             if (useExec) {
                 int dn = open("/dev/null", O_WRONLY);
                 if (dn >= 0) dup2(dn, 1);
+                if (starved) setenv("NIXDRV_ID_STARVE", "1", 1);
                 execl("/proc/self/exe", "nixdrv", ops.c_str(), dir.c_str(), (char *) nullptr);
                 _exit(7);
             }
